@@ -200,7 +200,7 @@ def annotation_gaps(text, info, names, degraded):
         if n.startswith('kani:'):
             continue
         parts = n.split('::')
-        mname, short = parts[0], parts[-1].split('__nec_')[0]
+        mname, short = parts[0], re.split(r'__nec_|__ref_', parts[-1])[0]
         st = [x for x in mods if x[1] == mname]
         if not st or mname not in extract.MODS:
             continue
@@ -284,7 +284,7 @@ def callee_closure(text, tab, roots, maxdef=6):
         defs[m.group(1)] = defs.get(m.group(1), 0) + 1
     by_short = {}
     for n, v in tab.items():
-        if n.startswith('kani:') or '__nec_' in n or v.get('mode') != 'exec':
+        if n.startswith('kani:') or '__nec_' in n or '__ref_' in n or v.get('mode') != 'exec':
             continue
         by_short.setdefault(n.split('::')[-1], []).append(n)
     seen = set(roots)
@@ -468,8 +468,8 @@ def main():
     if degraded:
         roots = set()
         for pat, kind in obligations.OBLIGATIONS[pid]:
-            if kind in ('body', 'nec'):
-                roots.add(pat.split('::')[-1].split('__nec_')[0])
+            if kind in ('body', 'nec', 'ref'):
+                roots.add(re.split(r'__nec_|__ref_', pat.split('::')[-1])[0])
         names = set(x.split('::')[-1].split('#')[0] for x in degraded)
         reach = mentions_closure(text, [r for r in roots if '*' not in r])
         star = [r for r in roots if '*' in r]
@@ -508,7 +508,7 @@ def main():
                 if ('kani:' + n, kind) not in obl:
                     obl.append(('kani:' + n, kind))
             continue
-        hits = sorted(n for n in tab if fnmatch.fnmatchcase(n, pat) and not n.startswith('kani:') and (kind == 'nec' or '__nec_' not in n))
+        hits = sorted(n for n in tab if fnmatch.fnmatchcase(n, pat) and not n.startswith('kani:') and (kind == 'nec' or '__nec_' not in n) and (kind == 'ref' or '__ref_' not in n))
         if not hits:
             return undecided('obligation-lost:' + pat)
         for n in hits:
@@ -523,13 +523,21 @@ def main():
         if (n, 'body') not in obl and (n, 'lemma') not in obl:
             obl.append((n, 'body'))
     def ok(n, k):
-        return (not tab[n]['success']) if k == 'nec' else tab[n]['success']
+        if k == 'nec':
+            return not tab[n]['success']
+        if k == 'ref':
+            # refusal copy (negated precondition, `ensures false`): must fail, and only at the documented panic - a failed
+            # postcondition means that some call outside the precondition returns normally
+            if tab[n]['success']:
+                return False
+            return not any(d['message'].startswith('postcondition not satisfied') for d in diag_for(run, text, [n]))
+        return tab[n]['success']
     failed = [(n, k) for n, k in obl if not ok(n, k)]
     # Solver seeds.  A proof found under any Z3 seed is a proof, so an obligation that fails under the default seed is
     # retried under two more before it is reported (protects against proof instability after harmless edits); the
     # thorough tier always runs them and records which obligations change outcome.  A necessity copy must fail under all.
     stability = None
-    retry = [n for n, k in failed if not n.startswith('kani:') and k != 'nec']
+    retry = [n for n, k in failed if not n.startswith('kani:') and k not in ('nec', 'ref')]
     if a.tier == 'thorough':
         # whole file under two more seeds: which obligations change outcome
         stability = {'seeds': [], 'changed_outcome': [], 'mode': 'whole file'}
@@ -577,7 +585,7 @@ def main():
         failed = [(n, k) for n, k in failed if n not in not_relevant]
     rlimit_hit = [d for d in run['diagnostics'] if 'rlimit' in d['message'] or 'Resource limit' in d['message']]
     discharged = len(obl) - len(failed)
-    per = [{'obligation': n, 'kind': k, 'backend': ('kani/cbmc complete' if k == 'kani' else 'kani/cbmc ' + k[5:] if k.startswith('kani') else 'verus/z3'), 'discharged': ok(n, k) or n in not_relevant, 'expect': ('fail' if k == 'nec' else 'pass'),
+    per = [{'obligation': n, 'kind': k, 'backend': ('kani/cbmc complete' if k == 'kani' else 'kani/cbmc ' + k[5:] if k.startswith('kani') else 'verus/z3'), 'discharged': ok(n, k) or n in not_relevant, 'expect': ('fail' if k == 'nec' else 'fail only at the documented panic' if k == 'ref' else 'pass'),
             'time_ms': tab[n]['time_us'] // 1000, 'rlimit': tab[n]['rlimit']} for n, k in obl]
     cov = {
         'obligations': len(obl), 'discharged': discharged,
@@ -608,7 +616,7 @@ def main():
         names = [n for n, k in failed]
         gaps = annotation_gaps(text, info, names, degraded)
         cov['annotation_gaps'] = gaps
-        unsure = [n for n in names if not n.startswith('kani:') and (n.split('::')[-1].split('__nec_')[0] in lost_in or n in gaps)]
+        unsure = [n for n in names if not n.startswith('kani:') and (re.split(r'__nec_|__ref_', n.split('::')[-1])[0] in lost_in or n in gaps)]
         if unsure and len(unsure) == len(names):
             why = ';'.join('%s:%s' % (n.split('::')[-1], '+'.join(gaps[n])[:80]) for n in unsure if n in gaps)
             return undecided(('contract-anchor-lost-or-annotation-gap-and-proof-of-changed-code-failed-in:' + ','.join(unsure) + ((':' + why) if why else ''))[:400], cov)
